@@ -5,6 +5,8 @@ package schema
 
 import (
 	"fmt"
+	"os"
+	"path/filepath"
 
 	"github.com/openconfig/goyang/pkg/yang"
 	"pgregory.net/rapid"
@@ -104,4 +106,85 @@ func (o *Observed) Tree(name string, attrs bool, problems *[]string) *yref.XNode
 		return nil
 	}
 	return canon.Entry(yang.ToEntry(m), canon.Opts{Attrs: attrs}, problems)
+}
+
+// PlanFetch picks, in a sixth of the calls, one module of the set that another module imports (with the
+// submodules it includes) to be left out of the texts handed over: it waits as a file in a search-path
+// directory and is fetched while Process binds the imports. A module that is fetched must be processed like
+// one that was handed in. The returned names are Source names; nil = everything is handed over.
+func PlanFetch(t *rapid.T, set *ymodel.Set) []string {
+	if rapid.IntRange(0, 5).Draw(t, "fetch-one-module") != 0 {
+		return nil
+	}
+	var cands []*ymodel.Module
+	for _, m := range set.Modules {
+		if m.IsSub || len(m.Revisions) > 0 || set.Older == m.Name {
+			continue
+		}
+		imported := false
+		for _, x := range set.Modules {
+			if o := set.Owner(x); o == m || (o == nil && x == m) {
+				continue
+			}
+			for _, im := range x.Imports {
+				if im.Module == m.Name && im.Revision == "" {
+					imported = true
+				}
+			}
+		}
+		if imported {
+			cands = append(cands, m)
+		}
+	}
+	if len(cands) == 0 {
+		return nil
+	}
+	m := cands[rapid.IntRange(0, len(cands)-1).Draw(t, "fetched-module")]
+	names := []string{m.FileName()}
+	seen := map[string]bool{m.Name: true}
+	var follow func(x *ymodel.Module)
+	follow = func(x *ymodel.Module) {
+		for _, inc := range x.Includes {
+			if s := set.Find(inc); s != nil && !seen[s.Name] {
+				seen[s.Name] = true
+				names = append(names, s.FileName())
+				follow(s)
+			}
+		}
+	}
+	follow(m)
+	return names
+}
+
+// LoadFetched is Load, except that the sources named in fetch are written to a fresh directory on the search
+// path instead of being handed over.
+func LoadFetched(srcs []ymodel.Source, fetch []string, opt func(*yang.Modules)) *Observed {
+	if len(fetch) == 0 {
+		return Load(srcs, opt)
+	}
+	dir, err := os.MkdirTemp("", "verif-fetch-")
+	if err != nil {
+		panic(err)
+	}
+	defer os.RemoveAll(dir)
+	skip := map[string]bool{}
+	for _, f := range fetch {
+		skip[f] = true
+	}
+	var handed []ymodel.Source
+	for _, s := range srcs {
+		if skip[s.Name] {
+			if err := os.WriteFile(filepath.Join(dir, s.Name), []byte(s.Text), 0o644); err != nil {
+				panic(err)
+			}
+			continue
+		}
+		handed = append(handed, s)
+	}
+	return Load(handed, func(ms *yang.Modules) {
+		ms.AddPath(dir)
+		if opt != nil {
+			opt(ms)
+		}
+	})
 }
